@@ -11,6 +11,7 @@ import Props.Defs
 import Proofs.Indep
 import Proofs.SrcBlind
 import Proofs.Restrict
+import Proofs.SeedTable
 namespace Coma.Props
 open Coma Coma.Spec
 
@@ -91,5 +92,31 @@ theorem C10_query_perm_all_modes (cfg : Cfg) (mode : Mode) (refs : List OMap) (t
     (h : execute cfg mode refs t qs it = .ok o) (h' : execute cfg mode refs t qs' it = .ok o') :
     o = o' :=
   Coma.Proofs.execute_perm cfg mode refs t qs qs' it hp hn o o' h h'
+
+/-! ### with the secondary seeding stage inside the model (`Coma/Seeding.lean`) -/
+
+/-- the seeds of a molecule are derived from its own entry of the primary-peak table, its own labels and
+    the references only: the derived table is computed entry by entry … -/
+theorem C10_seed_table_entrywise (c : SecCfg) (refs qs : List OMap) (pt : PTable) :
+    deriveTable c refs qs pt =
+      (pt.mapM (Coma.Proofs.deriveEntry c refs qs)).map fun es => { table := es.map (·.1), status := es.map (·.2) } :=
+  Coma.Proofs.deriveTable_eq_mapM c refs qs pt
+
+/-- … an entry does not change when other molecules are added, removed or reordered … -/
+theorem C10_seed_entry_other_molecules (c : SecCfg) (refs qs qs' : List OMap) (e : QKey × List PSeed)
+    (h : qs.find? (fun q => q.id = e.1.id) = qs'.find? (fun q => q.id = e.1.id)) :
+    Coma.Proofs.deriveEntry c refs qs e = Coma.Proofs.deriveEntry c refs qs' e :=
+  Coma.Proofs.deriveEntry_congr c refs qs qs' e h
+
+/-- … and what the per-query worker looks up under a key is that entry and nothing else -/
+theorem C10_seed_lookup (c : SecCfg) (refs qs : List OMap) (pt : PTable) (d : Derived) (k : QKey)
+    (h : deriveTable c refs qs pt = .ok d) :
+    d.table.lookup k =
+      match pt.find? (fun e => e.1 = k) with
+      | none   => []
+      | some e => match Coma.Proofs.deriveEntry c refs qs e with
+        | .ok r    => r.1.2
+        | .error _ => [] :=
+  Coma.Proofs.deriveTable_lookup c refs qs pt d k h
 
 end Coma.Props
